@@ -48,9 +48,9 @@ TERMS = {"G1": ["source", "drain"], "G2": ["source", "drain"], "G3": ["left", "r
          "G6": ["a", "b"], "G7": ["source", "drain"]}
 
 CURRENTS = {
-    2: [[1, -1], [3, -3], [0.1, -0.1], [0.7, -0.7], "ramp", "sin", "switch"],
-    3: [[1, 2, -3], [0.1, 0.2, -0.3], [0, 2, -2], [0.7, 0.1, -0.8], "ramp", "sin", "switch"],
-    4: [[1, 2, -3, 0], [0.1, 0.2, 0.3, -0.6], [1, 1, 1, -3], [0.3, 0.3, 0.3, -0.9], "ramp", "sin", "switch"],
+    2: [[1, -1], [3, -3], [0.1, -0.1], [0.7, -0.7], "ramp", "sin", "switch", "switch_sparse"],
+    3: [[1, 2, -3], [0.1, 0.2, -0.3], [0, 2, -2], [0.7, 0.1, -0.8], "ramp", "sin", "switch", "switch_sparse"],
+    4: [[1, 2, -3, 0], [0.1, 0.2, 0.3, -0.6], [1, 1, 1, -3], [0.3, 0.3, 0.3, -0.9], "ramp", "sin", "switch", "switch_sparse"],
 }
 
 
@@ -63,9 +63,9 @@ def cases(tier, seed):
     ks = (1, 3) if quick else (1, 2, 3)
     for (d, dens) in devs:
         n = len(TERMS[d])
-        cur = CURRENTS[n][:7]
+        cur = CURRENTS[n][:8]
         if quick:
-            cur = [cur[0], cur[1], cur[3], cur[4], cur[5], cur[6]] if n == 2 else [cur[0], cur[1], cur[2], cur[4], cur[5], cur[6]]
+            cur = [cur[0], cur[1], cur[3], cur[4], cur[5], cur[6], cur[7]] if n == 2 else [cur[0], cur[1], cur[2], cur[4], cur[5], cur[6], cur[7]]
         for ci, field, adaptive, k in itertools.product(range(len(cur)), ("zero", "static", "ramp"), (False, True), ks):
             out.append(dict(fam="run", dev=d, dens=dens, cur=cur[ci], field=field, adaptive=adaptive, k=k, screening=False,
                             units="um", seeded=False))
@@ -137,19 +137,30 @@ def current_func(spec, names, base_scale=1.0):
         def f(t):
             return {nm: base_scale * b * np.sin(3 * t + 0.4) for nm, b in zip(names, base)}
         return f, f
-    if spec == "switch":
+    if spec in ("switch", "switch_sparse"):
         # piecewise constant: the current flows between one ordered pair of terminals per phase, and
-        # consecutive phases share one terminal whose current does not change while the others switch
+        # consecutive phases share one terminal whose current does not change while the others switch.
+        # "switch_sparse": the callable only mentions the active terminals (omitted terminals carry no current),
+        # with an idle phase {} in between for two terminals
         pairs = switch_pairs(n)
+        if spec == "switch_sparse" and n == 2:
+            pairs = [(0, 1), None, (1, 0), None]
 
-        def f(t):
+        def full(t):
             ph = int(t / SWITCH_PHASE) % len(pairs)
-            i, j = pairs[ph]
             d = {nm: 0.0 for nm in names}
-            d[names[i]] = base_scale * 1.5
-            d[names[j]] = -base_scale * 1.5
+            if pairs[ph] is not None:
+                i, j = pairs[ph]
+                d[names[i]] = base_scale * 1.5
+                d[names[j]] = -base_scale * 1.5
             return d
-        return f, f
+
+        if spec == "switch":
+            return full, full
+
+        def sparse(t):
+            return {k: v for k, v in full(t).items() if v != 0.0}
+        return sparse, full
     d = {nm: base_scale * v for nm, v in zip(names, spec)}
     return d, (lambda t: d)
 
@@ -199,7 +210,7 @@ def run_run(case):
     else:
         A = LinearRamp(tmin=0.0, tmax=0.4, initial=0.1, final=1.0) * ConstantField(0.5 * fs, field_units=fu, length_units=lu)
     dt = 2.0**-6
-    nsteps = 8 if case["cur"] != "switch" else 2 * len(switch_pairs(len(names))) + 2
+    nsteps = 8 if case["cur"] not in ("switch", "switch_sparse") else 2 * max(4, len(switch_pairs(len(names)))) + 2
     opts = tdgl.SolverOptions(
         solve_time=nsteps * dt, dt_init=dt, dt_max=(2 * dt if case["adaptive"] else dt), adaptive=case["adaptive"], adaptive_window=2,
         save_every=case["k"], output_file="out.h5", field_units=fu, current_units=cu, include_screening=case["screening"],
